@@ -36,8 +36,13 @@ import (
 // so that entry hashes are reproducible between runs and processes.
 type DetKS struct {
 	Seed int64
-	mu   sync.Mutex
-	keys map[string]crypto.PrivKey
+	// Device, when set, makes this the keystore of ANOTHER device of the same users: the ids listed in Roots (the
+	// users' root keys, imported into every device) get the same key as on the first device, every other id (the
+	// signing key a device generates for an identity) a key of its own.
+	Device string
+	Roots  map[string]bool
+	mu     sync.Mutex
+	keys   map[string]crypto.PrivKey
 }
 
 func NewDetKS(seed int64) *DetKS { return &DetKS{Seed: seed, keys: map[string]crypto.PrivKey{}} }
@@ -53,6 +58,9 @@ func (k *DetKS) CreateKey(_ context.Context, id string) (crypto.PrivKey, error) 
 	k.mu.Lock()
 	defer k.mu.Unlock()
 	sum := sha256.Sum256([]byte(fmt.Sprintf("verif-key|%d|%s", k.Seed, id)))
+	if k.Device != "" && !k.Roots[id] {
+		sum = sha256.Sum256([]byte(fmt.Sprintf("verif-key|%d|device %s|%s", k.Seed, k.Device, id)))
+	}
 	p, err := crypto.UnmarshalSecp256k1PrivateKey(sum[:])
 	if err != nil {
 		return nil, err
@@ -246,6 +254,17 @@ func (w *World) SetIO(io iface.IO) { w.io = io }
 
 func (w *World) Identity(name string) *idp.Identity {
 	id, err := idp.CreateIdentity(w.Ctx, &idp.CreateIdentityOptions{Keystore: w.KS, ID: name, Type: "orbitdb"})
+	if err != nil {
+		panic(err)
+	}
+	return id
+}
+
+// OtherDeviceIdentity: the identity of the same user on another device - the user's root key is the same (so the
+// identity's id is the same), the signing key the device generated for it is another one (another public key).
+func (w *World) OtherDeviceIdentity(name string) *idp.Identity {
+	ks := &DetKS{Seed: w.Seed, Device: "2", Roots: map[string]bool{name: true}, keys: map[string]crypto.PrivKey{}}
+	id, err := idp.CreateIdentity(w.Ctx, &idp.CreateIdentityOptions{Keystore: ks, ID: name, Type: "orbitdb"})
 	if err != nil {
 		panic(err)
 	}
